@@ -69,9 +69,47 @@ func RunRoundTrip(c *core.Ctx) {
 	docs[0]["num"], docs[1]["num"], docs[2]["num"] = int64(7), float64(3), uint64(12)
 	docs[0]["str8"], docs[1]["str8"] = "ab\xff", "ab\xfe\xfd"
 	docs[2]["nn"] = map[string]any{"k": []any{int64(1), float64(2)}}
+	// the expiration is a time like any other: it keeps its zone offset (instants beyond the year 2150 never expire during a run)
+	zoned := func() time.Time {
+		off := r.Range(1, 14*60) * 60
+		if r.Bool() && off != 60 {
+			off = -off
+		}
+		return time.Unix(int64(5_700_000_000+r.Intn(2_000_000_000)), int64(r.Intn(1_000_000_000))).In(time.FixedZone("", off))
+	}
+	for i := range docs {
+		if i%3 == 1 {
+			docs[i]["_expiresAt"] = zoned()
+		}
+	}
+	// one document holds a long unsorted array: a query that looks into it must neither return nor leave it reordered
+	long := make([]any, r.Range(48, 90))
+	for i := range long {
+		long[i] = gen.Pick(r, []any{int64(r.Range(-50, 50)), float64(r.Range(-50, 50)) / 4, r.Str(), r.Bool(), nil, uint64(r.Intn(9))})
+	}
+	long[0], long[1], long[2], long[3] = "zz-last", int64(900), int64(-900), float64(0.5)
+	docs[3]["longarr"] = long
 	ids := s.Insert("rt", docs, false)
 	if s.failed || ids == nil {
 		return
+	}
+	{
+		crit := &model.Crit{Op: model.OpContains, Field: "longarr", Args: []model.Operand{model.L(int64(900)), model.L("zz-last"), model.L(int64(-900)), model.L(float64(0.5))}}
+		q := &model.Query{Coll: "rt", Crit: crit}
+		if res := s.FindAll(q); !s.failed && len(res) == 0 {
+			s.viol("roundtrip:contains-long-array", "Contains of four members of a %d-element array matched nothing", len(long))
+		}
+		s.FindById("rt", ids[3])
+		if c.Case%2 == 0 {
+			s.Bulk(BulkUpdateMap, q, &Upd{Name: "set", Set: map[string]any{"touched": int64(1), "_expiresAt": zoned()}})
+		} else {
+			s.Bulk(BulkUpdateFunc, q, &Upd{Name: "set", Set: map[string]any{"touched": int64(2)}})
+		}
+		s.FindById("rt", ids[3])
+		if s.failed {
+			return
+		}
+		c.Cell("rt|long-array-contains|%s", backendClass(backend))
 	}
 	// the updated document differs from the stored one in the KIND of a number only (7 as float64, 3 as int64, 12
 	// as int64), or in one byte that is not valid UTF-8: it is a different value and must be what is read back
@@ -117,6 +155,9 @@ func RunRoundTrip(c *core.Ctx) {
 		case 1:
 			d := r.RichDoc()
 			d["_id"] = id
+			if r.Bool() {
+				d["_expiresAt"] = zoned()
+			}
 			s.Save("rt", d)
 		case 2:
 			s.UpdateById("rt", id, &Upd{Name: "set_rich", InPlace: r.Bool(), Set: map[string]any{gen.Pick(r, []string{"a", "z", "obj.k", "n.a.b"}): r.Rich(3)}})
